@@ -824,3 +824,55 @@ mod tests {
         tower::ServiceExt::boxed_clone(tower::service_fn(handle))
     }
 }
+
+/// Verification hooks (compiled only with `--cfg bmwill_anemo_verif`): pass-through wrappers
+/// around this module's private items.
+#[cfg(bmwill_anemo_verif)]
+pub(crate) mod verif_hooks {
+    use super::*;
+
+    pub fn tie_breaking(
+        own_peer_id: &PeerId,
+        remote_peer_id: &PeerId,
+        existing_origin: ConnectionOrigin,
+        new_origin: ConnectionOrigin,
+    ) -> bool {
+        ActivePeersInner::simultaneous_dial_tie_breaking(
+            own_peer_id,
+            remote_peer_id,
+            existing_origin,
+            new_origin,
+        )
+    }
+
+    /// Wrapper around `DialBackoffState`.
+    #[derive(Debug)]
+    pub struct VerifBackoff(DialBackoffState);
+
+    impl VerifBackoff {
+        pub fn new(
+            now: std::time::Instant,
+            backoff_step: std::time::Duration,
+            max_backoff: std::time::Duration,
+        ) -> Self {
+            Self(DialBackoffState::new(now, backoff_step, max_backoff))
+        }
+
+        pub fn update(
+            &mut self,
+            now: std::time::Instant,
+            backoff_step: std::time::Duration,
+            max_backoff: std::time::Duration,
+        ) {
+            self.0.update(now, backoff_step, max_backoff)
+        }
+
+        pub fn backoff(&self) -> std::time::Instant {
+            self.0.backoff
+        }
+
+        pub fn attempts(&self) -> usize {
+            self.0.attempts
+        }
+    }
+}
